@@ -181,6 +181,7 @@ def sphinx_build(srcdir: str, outname: str, root: str, confoverrides: dict | Non
                         outputs[docname] = scrub(dt.pformat(), root)
                     except Exception as e:  # noqa: BLE001
                         outputs[docname] = f"<no resolved doctree: {type(e).__name__}: {e}>"
+                        extra.setdefault("resolve_errors", {})[docname] = exc_signature(e)
             elif write_phase:
                 suffix = {"xml": ".xml", "pseudoxml": ".pseudoxml", "html": ".html", "text": ".txt"}[builder]
                 for docname in sorted(app.env.found_docs):
